@@ -45,7 +45,7 @@ class DaemonLayer:
         return self._run_one(seed, N, profile)
 
     def _run_one(self, seed, N, profile):
-        sim = daemon.simulate(seed, N, profile)
+        sim = daemon.simulate(seed, N, profile, conf=daemon.conf_for(seed))
         chunks = daemon.lean_side(sim)
         diffs = daemon.compare(sim, chunks) if self.do_compare else []
         tr = trace.parse(sim)
@@ -111,10 +111,10 @@ class DaemonLayer:
         return dict(name=self.name, evaluations=sum(r['passes'] for r in rs), distinct=sum(r['nontriv'] for r in rs),
                     samples=[r['sample'] for r in rs if r['sample']][:2],
                     stats=dict(sorted(stats.items())), diffs=[d for r in rs for d in r['diffs']], violations=[v for r in rs for v in r['violations']],
-                    rule='one evaluation = one pass of the daemon loop (kernel answers, client bytes and device bytes drawn from one PRNG per run; %d runs x %d passes, from the 17th run on with fault rates, calm phases and client counts perturbed per run; configuration mixp: vpc over tcp + statement-coverage spec as coprocess with ping); every pass compared field by field with the Lean model; non-trivial = a pass in which the real code issued at least one system call, distinct by the hash of everything it printed for that pass' % (nseeds, N))
+                    rule='one evaluation = one pass of the daemon loop (kernel answers, client bytes and device bytes drawn from one PRNG per run; %d runs x %d passes, from the 17th run on with fault rates, calm phases and client counts perturbed per run; configuration mixp: vpc over tcp + statement-coverage spec as coprocess with ping; every third run on mixp3: the tcp host resolves to three addresses, connect()/SO_ERROR answered per call); every pass compared field by field with the Lean model; non-trivial = a pass in which the real code issued at least one system call, distinct by the hash of everything it printed for that pass' % (nseeds, N))
 
     def replay(self, rp, v):
-        sim = daemon.simulate(rp['seed'], rp['N'], rp.get('profile'), fixed_ops=rp.get('ops'))
+        sim = daemon.simulate(rp['seed'], rp['N'], rp.get('profile'), conf=daemon.conf_for(rp['seed']), fixed_ops=rp.get('ops'))
         chunks = daemon.lean_side(sim)
         at = rp.get('at', len(sim['ops']) - 1)
         for i in range(max(0, at - 3), min(len(sim['ops']), at + 1)):
@@ -303,7 +303,7 @@ class PairedLayer:
     def _one(self, args):
         seed, N = args
         V = []; diffs = []; st = collections.Counter()
-        sims = [daemon.simulate_sched(seed, N, False, self.conf), daemon.simulate_sched(seed, N, True, self.conf)]
+        sims = [daemon.simulate_sched(seed, N, False, daemon.conf_for(seed, self.conf)), daemon.simulate_sched(seed, N, True, daemon.conf_for(seed, self.conf))]
         trs = []
         for sim in sims:
             chunks = daemon.lean_side(sim)
@@ -313,6 +313,8 @@ class PairedLayer:
             if sim['died']: V.append(dict(sig='C05 daemon killed: ' + daemon.death_class(sim['stderr']), at=len(sim['ops']) - 1, detail=sim['stderr'][-800:]))
             V.extend(sleeping_calls(sim))
         st['sick mode ' + sims[1]['sick_mode']] += 1
+        st['runs on configuration ' + sims[0]['conf']] += 1
+        for sim in sims: st.update({k: v for k, v in sim['stats'].items() if k.startswith('multi-address')})
         views = [preds.client_views(t) for t in trs]
         for c in sims[0]['clients']:
             st['clients ' + c['kind']] += 1
@@ -362,7 +364,7 @@ class PairedLayer:
 
     def replay(self, rp, v):
         for sick in (False, True):
-            sim = daemon.simulate_sched(rp['seed'], rp['N'], sick, getattr(self, 'conf', 'mixp'))
+            sim = daemon.simulate_sched(rp['seed'], rp['N'], sick, daemon.conf_for(rp['seed'], getattr(self, 'conf', 'mixp')))
             at = rp.get('at', 0)
             print('=== device B', sim['sick_mode'])
             for i in range(max(0, at - 2), min(len(sim['ops']), at + 2)):
